@@ -16,6 +16,9 @@ def main(tier, seed, replay):
         k.validate_profile("rates", 100)
         k.validate_profile("vis_black", 60)
         k.validate_profile("vis_white", 60)
+        k.validate_profile("rel", 80, monitors_only=True)
+        k.validate_profile("rel_kf", 150, monitors_only=True, known=("F17",))
+        k.validate_profile("kf_f17", 1, monitors_only=True, known=("F17",))
     else:
         k.model_check("MC_Mut", mc_consts(ops=4, ticks=3, idle=2, cframes=3), inv, timeout=3000)
         k.model_check("MC_Mut2", mc_consts(ents=("e1", "e2"), ops=3, ticks=3, kinds=("spawn", "mutate", "insert")), inv, timeout=3000)
@@ -34,6 +37,10 @@ def main(tier, seed, replay):
         k.validate_profile("rates", 2000)
         k.validate_profile("vis_black", 1500)
         k.validate_profile("vis_white", 1500)
+        k.validate_profile("rel", 2500, monitors_only=True)
+        k.validate_profile("rel_kf", 1500, monitors_only=True, known=("F17",))
+        k.validate_profile("kf_f17", 1, monitors_only=True, known=("F17",))
+        k.replay_behaviours("TLC_walks", mc_consts(ents=("e1", "e2"), clients=("c1", "c2"), kinds=("spawn", "despawn", "insert", "remove", "mutate", "mark", "unmark"), ops=8, ticks=6, idle=3, cframes=8), 400, depth=80)
     k.selftest(tr)
     return k.finish(assumptions=[
         "channels behave as their contracts say (reliable ordered / unreliable: loss, reorder, delay; no duplication, no corruption)",
